@@ -15,6 +15,7 @@ import (
 	"fmt"
 	"os"
 	"path/filepath"
+	"regexp"
 	"runtime"
 	"sort"
 	"strings"
@@ -57,6 +58,11 @@ var c02Collision = map[string]string{
 var c02Tree = map[string]string{
 	// a second repository with another configuration, and a file outside any repository in a
 	// directory above both
+	// a repository whose configuration has several defects at once: which one the fatal error names
+	// must not depend on map order
+	"badcfg/.git/HEAD":                               "ref: refs/heads/main\n",
+	"badcfg/.github/actionlint.yaml":                 "paths:\n  '[a':\n    ignore: []\n  '[b':\n    ignore: []\n  '[c':\n    ignore: []\n",
+	"badcfg/.github/workflows/w.yml":                 "on: push\njobs:\n  a:\n    runs-on: ubuntu-latest\n    steps:\n      - run: echo\n",
 	"q/.git/HEAD":                                    "ref: refs/heads/main\n",
 	"q/.github/actionlint.yaml":                      "self-hosted-runner:\n  labels:\n    - qqq\nconfig-variables:\n  - QVAR\n",
 	"q/.github/workflows/other.yml":                  "on: push\njobs:\n  a:\n    runs-on: qqq\n    steps:\n      - run: echo ${{ vars.QVAR }} ${{ vars.ZZZ }}\n  b:\n    runs-on: zzz\n    steps:\n      - run: echo\n",
@@ -176,6 +182,7 @@ func TestVerifC02(t *testing.T) {
 	for _, f := range []string{"two-jobs-broken-action.yml", "missing-required.yml"} {
 		inputs = append(inputs, &c02Input{Name: "collision/project/" + f, Path: filepath.Join(root, "p/.github/workflows", f)})
 	}
+	inputs = append(inputs, &c02Input{Name: "collision/project/config-with-three-invalid-globs", Path: filepath.Join(root, "badcfg/.github/workflows/w.yml")})
 	nCollision := len(inputs)
 	for _, g := range []string{"testdata/examples/*.yaml", "testdata/ok/*.yaml", "testdata/err/*.yaml"} {
 		m, _ := filepath.Glob(filepath.Join(repo, g))
@@ -312,9 +319,9 @@ func TestVerifC02(t *testing.T) {
 	r.Extra["map_sites_reached_this_shard"] = len(st)
 
 	// ---- (2) interleavings of multi-file runs
-	files := []string{"two-jobs-broken-action.yml", "missing-required.yml", "second.yml", "callee.yml", "../../../q/.github/workflows/other.yml", "../../../top.yml"}
+	files := []string{"two-jobs-broken-action.yml", "missing-required.yml", "second.yml", "callee.yml", "../../../q/.github/workflows/other.yml", "../../../top.yml", "does-not-exist-1.yml", "does-not-exist-2.yml"}
 	var idx int64
-	for _, order := range [][]int{{0, 2}, {2, 0}, {1, 2, 3}, {3, 1}, {2, 1, 0}, {1, 4}, {4, 1}, {5, 1, 4}, {5, 4}} {
+	for _, order := range [][]int{{0, 2}, {2, 0}, {1, 2, 3}, {3, 1}, {2, 1, 0}, {1, 4}, {4, 1}, {5, 1, 4}, {5, 4}, {6, 7}, {7, 2, 6}} { // 6, 7: files that cannot be read (which one does the fatal error name?)
 		identByCPUs := map[int]string{}
 		for _, cpus := range []int{1, 2} {
 			idx++
@@ -481,6 +488,8 @@ func TestVerifC02(t *testing.T) {
 // c02SchedClass classifies a schedule-dependent difference: "shared-callee-defect-reporter" when
 // the only lines that differ are once-per-run defects of a shared local action / reusable workflow
 // (which file or rule reports them), otherwise the diagnostic kinds that moved.
+var c02SnippetLineRe = regexp.MustCompile(`^ *\d* *\|( .*)?$`)
+
 func c02SchedClass(a, b string) string {
 	la, lb := strings.Split(a, "\n"), strings.Split(b, "\n")
 	cnt := map[string]int{}
@@ -504,11 +513,14 @@ func c02SchedClass(a, b string) string {
 				callee = true
 			}
 		}
-		// the snippet lines printed below a diagnostic move with it
-		if !callee && (strings.HasPrefix(l, "p/.github/") || strings.HasPrefix(l, "<stdin>")) {
+		// the snippet lines printed below a diagnostic move with it; every other differing line
+		// (another diagnostic, the text of a fatal error, ...) is not covered by that class
+		if !callee && !c02SnippetLineRe.MatchString(l) && l != "" {
 			onlyCallee = false
 		}
-		if i := strings.LastIndex(l, "["); i >= 0 && strings.HasSuffix(l, "]") {
+		if strings.HasPrefix(l, "ERR ") {
+			kinds["fatal-error-text"] = true
+		} else if i := strings.LastIndex(l, "["); i >= 0 && strings.HasSuffix(l, "]") {
 			kinds[l[i+1:len(l)-1]] = true
 		}
 	}
